@@ -527,6 +527,56 @@ func arithLayers(j judge, tier string) []Layer {
 			},
 		})
 	}
+	// L7: long sparse dividends (more dividend words than the quotient needs)
+	{
+		var qs, ys []*big.Int
+		for _, c := range []int64{1, 2, 25, 4, 5, 99, 125} {
+			qs = append(qs, big.NewInt(c))
+		}
+		for _, v := range WVecs(1, S7) {
+			qs = append(qs, wordsToInt(v))
+		}
+		for _, c := range []int64{1, 2, 4, 5, 8, 3, 7, 16, 99} {
+			ys = append(ys, big.NewInt(c))
+		}
+		for _, v := range WVecs(2, S7) {
+			ys = append(ys, wordsToInt(v))
+		}
+		layers = append(layers, Layer{
+			Name:   "L7-longdividend",
+			Units:  len(ys),
+			Bounds: "Quo(x,y), x = q·y·10^(19k) + δ with k in 1..3 and δ in {0, 1, 10^(19k)−1, 5·10^(19k−1)}: the dividend has up to 3 more words than prec+1 quotient digits need and the retained words divide exactly; q in 7 ints ∪ W(1,S7), y in 9 ints ∪ W(2,S7); prec {1,2,3,digits(q),digits(q)+1,19,20,38}; 6 modes",
+			Run: func(c *Ctx, u int) {
+				yi := ys[u]
+				yo := mkCoef(false, yi, 0, uint32(ndigits(yi))+19, 0)
+				y := yo.Build()
+				for _, qi := range qs {
+					dq := uint32(ndigits(qi))
+					prod := new(big.Int).Mul(qi, yi)
+					for k := int64(1); k <= 3; k++ {
+						if c.Done() {
+							return
+						}
+						sh := p10(19 * k)
+						for di := 0; di < 4; di++ {
+							xi := new(big.Int).Mul(prod, sh)
+							switch di {
+							case 1:
+								xi.Add(xi, big1)
+							case 2:
+								xi.Add(xi, new(big.Int).Sub(sh, big1))
+							case 3:
+								xi.Add(xi, new(big.Int).Mul(big.NewInt(5), p10(19*k-1)))
+							}
+							xo := mkCoef(false, xi, -7, uint32(ndigits(xi))+1, 0)
+							x := xo.Build()
+							binSweep(c, j, []int{opQuo}, xo, yo, x, y, []uint32{1, 2, 3, dq, dq + 1, 19, 20, 38}, M6)
+						}
+					}
+				}
+			},
+		})
+	}
 	// L5: range ends
 	{
 		type pair struct {
@@ -647,7 +697,9 @@ func init() {
 			"Neg/Abs and the float setters are not judged (not listed by the property)",
 		},
 		Layers: func(tier string) []Layer {
-			return append(arithLayers(judgeAcc, tier), setterAccLayers(tier)...)
+			fmaAccOnly = true
+			ls := append(arithLayers(judgeAcc, tier), fmaLayers(tier)...)
+			return append(ls, setterAccLayers(tier)...)
 		},
 	})
 }
